@@ -580,4 +580,480 @@ theorem mem_broadphase {boxes : List (Box (Fin M.nbody) Float32 Float)} {maxpair
         | [a], _ => exact pairwise_singleton _ _
         | _ :: _ :: _, hl => simp at hl
 
+/-! ### well-formedness of the compiled model (compiler invariants, checked on every generated scene) -/
+
+structure WF : Prop where
+  /-- ids fit the 16-bit halves of a signature -/
+  nbody_le : M.nbody ≤ 65536
+  /-- `body_geomadr/body_geomnum` and `geom_bodyid` describe the same partition -/
+  geom_body : ∀ (g : Fin M.ngeom) (b : Fin M.nbody), g ∈ geomsOf M b ↔ M.geom[g].bodyid = b
+  /-- `pair_signature = (body1 << 16) + body2` with `body1 ≤ body2` -/
+  pair_sig : ∀ p ∈ M.pairs, p.signature = sig (M.geom[p.g1].bodyid).val (M.geom[p.g2].bodyid).val ∧
+    (M.geom[p.g1].bodyid).val ≤ (M.geom[p.g2].bodyid).val
+  /-- pairs and excludes are sorted by signature -/
+  pairs_sorted : M.pairs.Pairwise (fun p q => p.signature ≤ q.signature)
+  excl_sorted : M.excludes.Pairwise (fun a b => a ≤ b)
+  /-- `body_contype/body_conaffinity` are the OR of the geom masks -/
+  body_masks : ∀ b : Fin M.nbody, geomOr M b = (M.body[b].contype, M.body[b].conaffinity)
+  /-- the world body is its own parent and weld root -/
+  world : ∀ w : Fin M.nbody, w.val = 0 → (M.body[w].weld).val = 0 ∧ (M.body[w].parent).val = 0
+
+theorem exclScan_iff (s : Nat) : ∀ l : List Nat, l.Pairwise (fun a b => a ≤ b) → (exclScan s l = true ↔ s ∈ l)
+  | [], _ => by simp [exclScan]
+  | a :: l, hs => by
+    rw [pairwise_cons] at hs
+    have ih := exclScan_iff s l hs.2
+    unfold exclScan at ih ⊢
+    by_cases ha : a < s
+    · rw [dropWhile_cons_of_pos (by simpa using ha), ih, mem_cons]
+      constructor
+      · exact Or.inr
+      · rintro (h | h)
+        · omega
+        · exact h
+    · rw [dropWhile_cons_of_neg (by simpa using ha)]
+      simp only [decide_eq_true_eq, mem_cons]
+      constructor
+      · intro h; exact Or.inl h.symm
+      · rintro (h | h)
+        · exact h.symm
+        · have := hs.1 s h; omega
+
+theorem excluded_iff (hs : M.excludes.Pairwise (fun a b => a ≤ b)) (s : Nat) :
+    excluded M s = true ↔ s ∈ M.excludes := exclScan_iff s _ hs
+
+open MjProof.Spec.Collide in
+/-- the model's call of the generated `filterBodyPair` decides exactly filter 3 of the documentation -/
+theorem filterBody_iff_spec (hw : WF M) (b1 b2 : Fin M.nbody) :
+    filterBody M b1 b2 = true ↔ bodyFiltered M b1 b2 := by
+  unfold filterBody bodyFiltered weldOf weldParent cannotMove
+  simp only [decide_eq_true_eq]
+  rw [genFilterBodyPair_iff]
+  have hfin : ∀ a b : Fin M.nbody, ((a.val : Int) = (b.val : Int)) ↔ a = b := by
+    intro a b; constructor
+    · intro h; exact Fin.ext (by exact_mod_cast h)
+    · rintro rfl; rfl
+  have hz : ∀ a : Fin M.nbody, ((a.val : Int) = 0) ↔ a.val = 0 := by
+    intro a; constructor <;> intro h <;> exact_mod_cast h
+  have hworld := hw.world
+  cases hfp : M.dsblFilterParent
+  · simp only [Bool.false_eq_true, ↓reduceIte, ne_eq, not_true_eq_false, false_and, and_false, or_false, false_or,
+      true_and, hfin, hz]
+    constructor
+    · rintro (h | h | ⟨h1, h2, h3 | h3⟩)
+      · exact Or.inl h
+      · exact Or.inr (Or.inl h)
+      · exact Or.inr (Or.inr (Or.inl ⟨h3.symm, h1⟩))
+      · exact Or.inr (Or.inr (Or.inr ⟨h3.symm, h2⟩))
+    · rintro (h | h | ⟨h1, h2⟩ | ⟨h1, h2⟩)
+      · exact Or.inl h
+      · exact Or.inr (Or.inl h)
+      · refine Or.inr (Or.inr ⟨h2, ?_, Or.inl h1.symm⟩)
+        intro h0
+        have := (hworld _ h0)
+        have hp : (M.body[M.body[M.body[b2].weld].parent].weld).val = 0 := (hworld _ this.2).1
+        rw [h1] at hp; exact h2 hp
+      · refine Or.inr (Or.inr ⟨?_, h2, Or.inr h1.symm⟩)
+        intro h0
+        have := (hworld _ h0)
+        have hp : (M.body[M.body[M.body[b1].weld].parent].weld).val = 0 := (hworld _ this.2).1
+        rw [h1] at hp; exact h2 hp
+  · simp [hfin]
+
+theorem filterBody_symm (b1 b2 : Fin M.nbody) : filterBody M b1 b2 = filterBody M b2 b1 := by
+  unfold filterBody
+  have := genFilterBodyPair_symm ((M.body[b1].weld).val : Int) ((M.body[M.body[M.body[b1].weld].parent].weld).val : Int) 0
+    M.body[M.body[b1].weld].dofnum ((M.body[b2].weld).val : Int) ((M.body[M.body[M.body[b2].weld].parent].weld).val : Int) 0
+    M.body[M.body[b2].weld].dofnum (if M.dsblFilterParent then 1 else 0)
+  simp only
+  exact decide_eq_decide.mpr this
+
+/-! ### the OR of the geom masks dominates every geom mask -/
+
+theorem foldOr_acc (ct ca : α → Int) : ∀ (l : List α) (acc : Int × Int),
+    (∃ X, BitVec.ofInt 32 (l.foldl (fun acc g => (intLor acc.1 (ct g), intLor acc.2 (ca g))) acc).1 = BitVec.ofInt 32 acc.1 ||| X) ∧
+    (∃ Y, BitVec.ofInt 32 (l.foldl (fun acc g => (intLor acc.1 (ct g), intLor acc.2 (ca g))) acc).2 = BitVec.ofInt 32 acc.2 ||| Y)
+  | [], acc => ⟨⟨0, by simp⟩, ⟨0, by simp⟩⟩
+  | g :: l, acc => by
+    rw [foldl_cons]
+    obtain ⟨⟨X, hX⟩, ⟨Y, hY⟩⟩ := foldOr_acc ct ca l (intLor acc.1 (ct g), intLor acc.2 (ca g))
+    refine ⟨⟨BitVec.ofInt 32 (ct g) ||| X, ?_⟩, ⟨BitVec.ofInt 32 (ca g) ||| Y, ?_⟩⟩
+    · rw [hX, ofInt_intLor, BitVec.or_assoc]
+    · rw [hY, ofInt_intLor, BitVec.or_assoc]
+
+theorem foldOr_mem (ct ca : α → Int) : ∀ (l : List α) (acc : Int × Int) (g : α), g ∈ l →
+    (∃ X, BitVec.ofInt 32 (l.foldl (fun acc g => (intLor acc.1 (ct g), intLor acc.2 (ca g))) acc).1 = BitVec.ofInt 32 (ct g) ||| X) ∧
+    (∃ Y, BitVec.ofInt 32 (l.foldl (fun acc g => (intLor acc.1 (ct g), intLor acc.2 (ca g))) acc).2 = BitVec.ofInt 32 (ca g) ||| Y)
+  | [], _, _, h => by simp at h
+  | a :: l, acc, g, h => by
+    rw [foldl_cons]
+    rcases mem_cons.mp h with rfl | h
+    · obtain ⟨⟨X, hX⟩, ⟨Y, hY⟩⟩ := foldOr_acc ct ca l (intLor acc.1 (ct g), intLor acc.2 (ca g))
+      refine ⟨⟨BitVec.ofInt 32 acc.1 ||| X, ?_⟩, ⟨BitVec.ofInt 32 acc.2 ||| Y, ?_⟩⟩
+      · rw [hX, ofInt_intLor, BitVec.or_comm (BitVec.ofInt 32 acc.1), BitVec.or_assoc]
+      · rw [hY, ofInt_intLor, BitVec.or_comm (BitVec.ofInt 32 acc.2), BitVec.or_assoc]
+    · exact foldOr_mem ct ca l _ g h
+
+/-- geom-level compatibility implies the body-level test of `add_pair` -/
+theorem orCompat_of_geoms {b1 b2 : Fin M.nbody} {g1 g2 : Fin M.ngeom} (h1 : g1 ∈ geomsOf M b1) (h2 : g2 ∈ geomsOf M b2)
+    (hc : intLand M.geom[g1].contype M.geom[g2].conaffinity ≠ 0 ∨ intLand M.geom[g2].contype M.geom[g1].conaffinity ≠ 0) :
+    intLand (geomOr M b1).1 (geomOr M b2).2 ≠ 0 ∨ intLand (geomOr M b2).1 (geomOr M b1).2 ≠ 0 := by
+  obtain ⟨⟨X1, hX1⟩, ⟨Y1, hY1⟩⟩ := foldOr_mem (fun g : Fin M.ngeom => M.geom[g].contype) (fun g => M.geom[g].conaffinity)
+    (geomsOf M b1) (0, 0) g1 h1
+  obtain ⟨⟨X2, hX2⟩, ⟨Y2, hY2⟩⟩ := foldOr_mem (fun g : Fin M.ngeom => M.geom[g].contype) (fun g => M.geom[g].conaffinity)
+    (geomsOf M b2) (0, 0) g2 h2
+  rcases hc with hc | hc
+  · left
+    rw [intLand_ne_zero_iff] at hc ⊢
+    unfold geomOr
+    rw [hX1, hY2]
+    exact bv_and_or_mono hc
+  · right
+    rw [intLand_ne_zero_iff] at hc ⊢
+    unfold geomOr
+    rw [hX2, hY1]
+    exact bv_and_or_mono hc
+
+/-! ### assembly: the modelled `mj_collision` against the rule set -/
+
+section assembly
+open MjProof.Spec.Collide
+
+theorem push_geoms (a b : Fin M.ngeom) (k : Option Nat) :
+    ((push M a b k).g1 = a ∧ (push M a b k).g2 = b) ∨ ((push M a b k).g1 = b ∧ (push M a b k).g2 = a) := by
+  unfold push; split
+  · exact Or.inr ⟨rfl, rfl⟩
+  · exact Or.inl ⟨rfl, rfl⟩
+
+/-- the rule set is symmetric in the two geoms when the proximity input is -/
+theorem dynamic_symm (hsymm : ∀ a b, M.near a b = M.near b a) (g1 g2 : Fin M.ngeom) :
+    Spec.Collide.Dynamic M g1 g2 → Spec.Collide.Dynamic M g2 g1 := by
+  rintro ⟨he, hb, hc, hx, hp, ht, hn⟩
+  refine ⟨he, ?_, ?_, ?_, ?_, ?_, ?_⟩
+  · intro h; apply hb
+    unfold bodyFiltered at h ⊢
+    simp only at h ⊢
+    rcases h with h | h | ⟨h1, h2 | h2⟩
+    · exact Or.inl h.symm
+    · exact Or.inr (Or.inl ⟨h.2, h.1⟩)
+    · exact Or.inr (Or.inr ⟨h1, Or.inr h2⟩)
+    · exact Or.inr (Or.inr ⟨h1, Or.inl h2⟩)
+  · exact hc.symm
+  · intro h; apply hx
+    obtain ⟨s, hs, h⟩ := h
+    exact ⟨s, hs, by rw [h, Nat.min_comm, Nat.max_comm]⟩
+  · intro h; apply hp
+    obtain ⟨p, hp', h⟩ := h
+    exact ⟨p, hp', h.symm⟩
+  · unfold typesOK at ht ⊢
+    rw [Nat.min_comm, Nat.max_comm]; exact ht
+  · rw [hsymm]; exact hn
+
+/-- the broad-phase hypothesis (what `makeAAMM` + `mj_SAP` have to deliver; `makeAAMM` is not modelled): whenever
+    two geoms of different non-world bodies are `close` (truly within margin: the narrow phase would report a
+    contact), one of the bodies is handled by the "always colliding" init loop or the SAP list contains the body
+    pair -/
+def BroadComplete (close : Fin M.ngeom → Fin M.ngeom → Prop) (boxes : List (Box (Fin M.nbody) Float32 Float)) : Prop :=
+  ∀ g1 g2 : Fin M.ngeom, close g1 g2 →
+    (M.geom[g1].bodyid).val ≠ 0 → (M.geom[g2].bodyid).val ≠ 0 → M.geom[g1].bodyid ≠ M.geom[g2].bodyid →
+    alwaysBody M M.geom[g1].bodyid = true ∨ alwaysBody M M.geom[g2].bodyid = true ∨
+    (M.geom[g1].bodyid, M.geom[g2].bodyid) ∈ sapList M boxes ∨ (M.geom[g2].bodyid, M.geom[g1].bodyid) ∈ sapList M boxes
+
+theorem mem_initPairs (x y : Fin M.nbody) :
+    (x, y) ∈ initPairs M ↔ canCollide M x = true ∧ alwaysBody M x = true ∧ canCollide M y = true ∧ filterBody M x y = false := by
+  unfold initPairs
+  rw [mem_flatMap]
+  constructor
+  · rintro ⟨b1, _, h⟩
+    split at h
+    · rename_i hb1
+      obtain ⟨b2, hb2, heq⟩ := mem_map.mp h
+      obtain ⟨rfl, rfl⟩ := Prod.mk.inj heq
+      have := (mem_filter.mp hb2).2
+      simp only [Bool.and_eq_true, Bool.not_eq_eq_eq_not, Bool.not_true] at this hb1
+      exact ⟨hb1.1, hb1.2, this.1, this.2⟩
+    · simp at h
+  · rintro ⟨h1, h2, h3, h4⟩
+    refine ⟨x, mem_finRange x, ?_⟩
+    rw [if_pos (by simp [h1, h2])]
+    exact mem_map.mpr ⟨y, mem_filter.mpr ⟨mem_finRange y, by simp [h3, h4]⟩, rfl⟩
+
+theorem filterBody_self (x : Fin M.nbody) : filterBody M x x = true := by
+  unfold filterBody
+  simp only [decide_eq_true_eq]
+  rw [genFilterBodyPair_iff]
+  exact Or.inl rfl
+
+theorem ordPair_lt {x y : Fin M.nbody} (h : x ≠ y) : (ordPair M x y).1.val < (ordPair M x y).2.val := by
+  unfold ordPair
+  split
+  · assumption
+  · have : x.val ≠ y.val := fun h' => h (Fin.ext h')
+    simp only; omega
+
+theorem ordPair_cases (x y : Fin M.nbody) : ordPair M x y = (x, y) ∨ ordPair M x y = (y, x) := by
+  unfold ordPair; split <;> simp
+
+theorem collide_unfold {boxes : List (Box (Fin M.nbody) Float32 Float)} {items : List (Item M.nbody M.ngeom)}
+    (hok : collide M boxes = .ok items) (hne : items ≠ []) :
+    enabled M ∧ 2 ≤ M.nbody ∧ ∃ bfs, broadphase M boxes ((M.nbody * (M.nbody - 1)) / 2) = .ok bfs ∧
+      items = driverLoop M bfs none M.pairs := by
+  unfold collide at hok
+  split at hok
+  · exact absurd (Except.ok.inj hok).symm hne
+  · rename_i hdis
+    simp only [Bool.or_eq_true, decide_eq_true_eq, not_or, Bool.not_eq_true, Nat.not_lt] at hdis
+    split at hok
+    · cases hok
+    · rename_i bfs hbf
+      exact ⟨⟨hdis.1.1, hdis.1.2⟩, hdis.2, bfs, hbf, (Except.ok.inj hok).symm⟩
+
+/-- **explicit pairs**: pair `k` reaches the narrow phase iff collision is enabled and the pair passes filters 1
+    and 2 with its own margin — nothing else is consulted -/
+theorem collide_explicit {boxes : List (Box (Fin M.nbody) Float32 Float)} {items : List (Item M.nbody M.ngeom)}
+    (h2 : 2 ≤ M.nbody) (hok : collide M boxes = .ok items) (c : Cand M.ngeom) (k : Nat) (hk : c.ipair = some k) :
+    c ∈ flat items ↔ ∃ p, Explicit M p ∧ p.idx = k ∧ c = push M p.g1 p.g2 (some k) := by
+  have hexp : ∀ ps : List (Pair M.ngeom), c ∈ explicitCands M ps ↔
+      ∃ p ∈ ps, typesOK M p.g1 p.g2 ∧ M.nearPair p.idx = true ∧ p.idx = k ∧ c = push M p.g1 p.g2 (some k) := by
+    intro ps
+    unfold explicitCands
+    rw [mem_map]
+    constructor
+    · rintro ⟨p, hp, rfl⟩
+      obtain ⟨hp1, hp2⟩ := mem_filter.mp hp
+      have hidx : p.idx = k := by
+        rw [push_ipair] at hk; exact Option.some.inj hk
+      unfold filterExplicit at hp2
+      by_cases hn : M.nearPair p.idx = true
+      · simp only [hn, Bool.not_true, Bool.false_eq_true, ↓reduceIte] at hp2
+        exact ⟨p, hp1, hp2, hn, hidx, by rw [hidx]⟩
+      · simp [hn] at hp2
+    · rintro ⟨p, hp, ht, hn, hidx, rfl⟩
+      refine ⟨p, mem_filter.mpr ⟨hp, ?_⟩, by rw [hidx]⟩
+      unfold filterExplicit
+      simp only [hn, Bool.not_true, Bool.false_eq_true, ↓reduceIte]
+      exact ht
+  by_cases hne : items = []
+  · subst hne
+    simp only [flat_nil, not_mem_nil, false_iff]
+    rintro ⟨p, ⟨he, hp, ht, hn⟩, hidx, hc⟩
+    -- enabled and nbody ≥ 2: the loop ran, and it emits every explicit pair that passes
+    unfold collide at hok
+    have hdis : ¬ ((M.dsblConstraint || M.dsblContact || decide (M.nbody < 2)) = true) := by
+      simp only [Bool.or_eq_true, decide_eq_true_eq, not_or, Bool.not_eq_true, Nat.not_lt]
+      exact ⟨⟨he.1, he.2⟩, h2⟩
+    rw [if_neg hdis] at hok
+    split at hok
+    · cases hok
+    · rename_i bfs _
+      have hitems := (Except.ok.inj hok).symm
+      have : c ∈ flat (driverLoop M bfs none M.pairs) :=
+        (driverLoop_explicit M c k hk bfs none M.pairs).mpr ((hexp M.pairs).mpr ⟨p, hp, ht, hn, hidx, hc⟩)
+      rw [← hitems] at this
+      simp at this
+  · obtain ⟨he, _, bfs, _, hitems⟩ := collide_unfold M hok hne
+    rw [hitems, driverLoop_explicit M c k hk, hexp]
+    constructor
+    · rintro ⟨p, hp, ht, hn, hidx, hc⟩; exact ⟨p, ⟨he, hp, ht, hn⟩, hidx, hc⟩
+    · rintro ⟨p, ⟨_, hp, ht, hn⟩, hidx, hc⟩; exact ⟨p, hp, ht, hn, hidx, hc⟩
+
+theorem pairSigOK_of_wf (hw : WF M) : PairSigOK M M.pairs := by
+  intro p hp b g1 g2 hlt h1 h2 hm
+  obtain ⟨hsig, hle⟩ := hw.pair_sig p hp
+  have hb1 := (hw.geom_body g1 b.1).mp h1
+  have hb2 := (hw.geom_body g2 b.2).mp h2
+  rcases hm with ⟨e1, e2⟩ | ⟨e1, e2⟩
+  · subst e1; subst e2
+    rw [hsig, hb1, hb2]; rfl
+  · subst e1; subst e2
+    rw [hb1, hb2] at hle; omega
+
+/-- facts about a broad-phase pair -/
+theorem bfs_facts (hw : WF M) {boxes : List (Box (Fin M.nbody) Float32 Float)} {maxpair : Nat}
+    {bfs : List (Fin M.nbody × Fin M.nbody)} (hg : ∃ g : Fin M.ngeom, (M.geom[g].bodyid).val ≠ 0)
+    (h : broadphase M boxes maxpair = .ok bfs) :
+    ∀ b ∈ bfs, (b.1.val < b.2.val ∧ b.2.val < 65536) ∧ filterBody M b.1 b.2 = false := by
+  intro b hb
+  obtain ⟨x, y, hsrc, _, rfl⟩ := ((mem_broadphase M hg h).1 b).mp hb
+  have hf : filterBody M x y = false := by
+    rcases hsrc with h' | ⟨_, h'⟩
+    · exact ((mem_initPairs M x y).mp h').2.2.2
+    · exact h'
+  have hne : x ≠ y := by
+    rintro rfl
+    rw [filterBody_self] at hf; exact absurd hf (by simp)
+  refine ⟨⟨ordPair_lt M hne, ?_⟩, ?_⟩
+  · have := (ordPair M x y).2.isLt
+    have := hw.nbody_le
+    omega
+  · rcases ordPair_cases M x y with e | e <;> rw [e]
+    · exact hf
+    · simp only; rw [filterBody_symm]; exact hf
+
+/-- what `DynFrom` says in terms of the rule set -/
+theorem dynFrom_spec (hw : WF M) (he : enabled M) {b : Fin M.nbody × Fin M.nbody} (hlt : b.1.val < b.2.val)
+    (hf : filterBody M b.1 b.2 = false) {g1 g2 : Fin M.ngeom} (h1 : g1 ∈ geomsOf M b.1) (h2 : g2 ∈ geomsOf M b.2) :
+    (BodyPairOK M b ∧ DynOK M M.pairs g1 g2) ↔ Spec.Collide.Dynamic M g1 g2 := by
+  have hb1 : bodyOf M g1 = b.1 := (hw.geom_body g1 b.1).mp h1
+  have hb2 : bodyOf M g2 = b.2 := (hw.geom_body g2 b.2).mp h2
+  have hnf : ¬ bodyFiltered M b.1 b.2 := by
+    rw [← filterBody_iff_spec M hw]; simp [hf]
+  have hexcl : excluded M (sigp M b) = false ↔ ¬ excludedBodies M b.1 b.2 := by
+    rw [← Bool.not_eq_true, excluded_iff M hw.excl_sorted]
+    unfold excludedBodies sigp sig
+    rw [Nat.min_eq_left (Nat.le_of_lt hlt), Nat.max_eq_right (Nat.le_of_lt hlt)]
+    constructor
+    · rintro h ⟨s, hs, rfl⟩; exact h hs
+    · intro h hs; exact h ⟨_, hs, rfl⟩
+  unfold Spec.Collide.Dynamic
+  rw [hb1, hb2]
+  unfold BodyPairOK DynOK
+  constructor
+  · rintro ⟨⟨_, hx⟩, hnp, hbm, hn, hfn⟩
+    refine ⟨he, hnf, (genFilterBitmask_iff _ _ _ _).mp hbm, hexcl.mp hx, ?_, hfn, hn⟩
+    rintro ⟨p, hp, hm⟩; exact hnp ⟨p, hp, hm⟩
+  · rintro ⟨_, _, hc, hx, hnp, ht, hn⟩
+    refine ⟨⟨?_, hexcl.mpr hx⟩, ?_, (genFilterBitmask_iff _ _ _ _).mpr hc, hn, ht⟩
+    · unfold canCollide2
+      simp only [beq_iff_eq]
+      rw [genFilterBitmask_iff]
+      have := orCompat_of_geoms M h1 h2 hc
+      rw [hw.body_masks b.1, hw.body_masks b.2] at this
+      exact this
+    · rintro ⟨p, hp, hm⟩; exact hnp ⟨p, hp, hm⟩
+
+/-- completeness half for one orientation -/
+theorem dynamic_complete (hw : WF M) {boxes : List (Box (Fin M.nbody) Float32 Float)}
+    {bfs : List (Fin M.nbody × Fin M.nbody)} (hg : ∃ g : Fin M.ngeom, (M.geom[g].bodyid).val ≠ 0)
+    {close : Fin M.ngeom → Fin M.ngeom → Prop}
+    (hbroad : BroadComplete M close boxes) (hbf : broadphase M boxes ((M.nbody * (M.nbody - 1)) / 2) = .ok bfs)
+    {g1 g2 : Fin M.ngeom} (hd : Spec.Collide.Dynamic M g1 g2) (hcl : close g1 g2)
+    (hlt : (bodyOf M g1).val < (bodyOf M g2).val) :
+    push M g1 g2 none ∈ flat (driverLoop M bfs none M.pairs) := by
+  obtain ⟨he, hnf, hc, hx, hnp, ht, hn⟩ := hd
+  have h1 : g1 ∈ geomsOf M (bodyOf M g1) := (hw.geom_body g1 _).mpr rfl
+  have h2 : g2 ∈ geomsOf M (bodyOf M g2) := (hw.geom_body g2 _).mpr rfl
+  have hff : filterBody M (bodyOf M g1) (bodyOf M g2) = false := by
+    have := (filterBody_iff_spec M hw (bodyOf M g1) (bodyOf M g2)).not.mpr hnf
+    simpa using this
+  have hor := orCompat_of_geoms M h1 h2 hc
+  have horc : orCompat M (bodyOf M g1) (bodyOf M g2) := by
+    unfold orCompat; intro h; rcases hor with h' | h'
+    · exact h' h.1
+    · exact h' h.2
+  have horc' : orCompat M (bodyOf M g2) (bodyOf M g1) := by
+    unfold orCompat; intro h; rcases hor with h' | h'
+    · exact h' h.2
+    · exact h' h.1
+  -- both bodies are collidable
+  have hcc : canCollide M (bodyOf M g1) = true ∧ canCollide M (bodyOf M g2) = true := by
+    rw [hw.body_masks, hw.body_masks] at hor
+    unfold canCollide
+    simp only [Bool.or_eq_true, decide_eq_true_eq]
+    rcases hor with h' | h'
+    · refine ⟨Or.inl ?_, Or.inr ?_⟩
+      · intro h0; simp only at h'; rw [h0, intLand_zero_left] at h'; exact h' rfl
+      · intro h0; simp only at h'; rw [h0, intLand_zero_right] at h'; exact h' rfl
+    · refine ⟨Or.inr ?_, Or.inl ?_⟩
+      · intro h0; simp only at h'; rw [h0, intLand_zero_right] at h'; exact h' rfl
+      · intro h0; simp only at h'; rw [h0, intLand_zero_left] at h'; exact h' rfl
+  have hne : bodyOf M g1 ≠ bodyOf M g2 := fun h => by rw [h] at hlt; omega
+  -- the body pair is in the broad-phase list
+  have hin : (bodyOf M g1, bodyOf M g2) ∈ bfs := by
+    rw [(mem_broadphase M hg hbf).1]
+    have hord1 : ordPair M (bodyOf M g1) (bodyOf M g2) = (bodyOf M g1, bodyOf M g2) := by
+      unfold ordPair; rw [if_pos hlt]
+    have hord2 : ordPair M (bodyOf M g2) (bodyOf M g1) = (bodyOf M g1, bodyOf M g2) := by
+      unfold ordPair; rw [if_neg (by omega)]
+    have hff' : filterBody M (bodyOf M g2) (bodyOf M g1) = false := by rw [filterBody_symm]; exact hff
+    have always1 : alwaysBody M (bodyOf M g1) = true → _ := fun ha =>
+      (⟨bodyOf M g1, bodyOf M g2, Or.inl ((mem_initPairs M _ _).mpr ⟨hcc.1, ha, hcc.2, hff⟩), horc, hord1.symm⟩ :
+        ∃ x y, ((x, y) ∈ initPairs M ∨ ((x, y) ∈ sapList M boxes ∧ filterBody M x y = false)) ∧ orCompat M x y ∧
+          (bodyOf M g1, bodyOf M g2) = ordPair M x y)
+    by_cases hw0 : (bodyOf M g1).val = 0
+    · -- world body with geoms
+      apply always1
+      unfold alwaysBody
+      have hgn : M.body[bodyOf M g1].geomnum > 0 := by
+        unfold geomsOf at h1
+        have := (mem_filter.mp h1).2
+        simp only [decide_eq_true_eq] at this
+        omega
+      rw [Bool.or_eq_true]; left
+      rw [decide_eq_true_eq]
+      exact ⟨hw0, hgn⟩
+    · have hw0' : (bodyOf M g2).val ≠ 0 := by omega
+      rcases hbroad g1 g2 hcl hw0 hw0' hne with ha | ha | ha | ha
+      · exact always1 ha
+      · exact ⟨bodyOf M g2, bodyOf M g1, Or.inl ((mem_initPairs M _ _).mpr ⟨hcc.2, ha, hcc.1, hff'⟩), horc', hord2.symm⟩
+      · exact ⟨bodyOf M g1, bodyOf M g2, Or.inr ⟨ha, hff⟩, horc, hord1.symm⟩
+      · exact ⟨bodyOf M g2, bodyOf M g1, Or.inr ⟨ha, hff'⟩, horc', hord2.symm⟩
+  have hfacts := bfs_facts M hw hg hbf
+  rw [driverLoop_dynamic M _ (push_ipair M g1 g2 none) bfs none M.pairs (mem_broadphase M hg hbf).2 hw.pairs_sorted
+    (fun b hb => (hfacts b hb).1) (fun l h => by cases h) (pairSigOK_of_wf M hw)]
+  refine ⟨(bodyOf M g1, bodyOf M g2), hin, by simp, ?_⟩
+  have := (dynFrom_spec M hw he (b := (bodyOf M g1, bodyOf M g2)) hlt hff h1 h2).mpr ⟨he, hnf, hc, hx, hnp, ht, hn⟩
+  exact ⟨this.1, g1, h1, g2, h2, this.2, rfl⟩
+
+/-- **dynamic pairs, soundness**: every pair that reaches the narrow phase through the body-pair mechanism is
+    selected by the documented rule set (mid-phase groups counted with their all-to-all superset) -/
+theorem collide_dynamic_sound (hw : WF M) {boxes : List (Box (Fin M.nbody) Float32 Float)} {items : List (Item M.nbody M.ngeom)}
+    (hg : ∃ g : Fin M.ngeom, (M.geom[g].bodyid).val ≠ 0)
+    (hsymm : ∀ a b, M.near a b = M.near b a)
+    (hok : collide M boxes = .ok items) (g1 g2 : Fin M.ngeom) :
+    (∃ c ∈ flat items, c.ipair = none ∧ ((c.g1 = g1 ∧ c.g2 = g2) ∨ (c.g1 = g2 ∧ c.g2 = g1))) →
+      Spec.Collide.Dynamic M g1 g2 := by
+  rintro ⟨c, hc, hnone, hgeoms⟩
+  have hne : items ≠ [] := by rintro rfl; simp at hc
+  obtain ⟨he, _, bfs, hbf, hitems⟩ := collide_unfold M hok hne
+  have hfacts := bfs_facts M hw hg hbf
+  rw [hitems, driverLoop_dynamic M c hnone bfs none M.pairs (mem_broadphase M hg hbf).2 hw.pairs_sorted
+    (fun b hb => (hfacts b hb).1) (fun l h => by cases h) (pairSigOK_of_wf M hw)] at hc
+  obtain ⟨b, hb, _, hbp, a1, ha1, a2, ha2, hdyn, rfl⟩ := hc
+  have hD : Spec.Collide.Dynamic M a1 a2 := (dynFrom_spec M hw he (hfacts b hb).1.1 (hfacts b hb).2 ha1 ha2).mp ⟨hbp, hdyn⟩
+  rcases push_geoms M a1 a2 none with ⟨e1, e2⟩ | ⟨e1, e2⟩ <;> rcases hgeoms with ⟨f1, f2⟩ | ⟨f1, f2⟩
+  · rw [← f1, ← f2, e1, e2]; exact hD
+  · rw [← f1, ← f2, e1, e2]; exact dynamic_symm M hsymm _ _ hD
+  · rw [← f1, ← f2, e1, e2]; exact dynamic_symm M hsymm _ _ hD
+  · rw [← f1, ← f2, e1, e2]; exact hD
+
+/-- **dynamic pairs, completeness**: a pair that the documented rule set selects and whose geoms are `close`
+    reaches the narrow phase, provided the broad phase is complete for `close` pairs -/
+theorem collide_dynamic_complete (hw : WF M) {boxes : List (Box (Fin M.nbody) Float32 Float)} {items : List (Item M.nbody M.ngeom)}
+    (h2 : 2 ≤ M.nbody) (hg : ∃ g : Fin M.ngeom, (M.geom[g].bodyid).val ≠ 0)
+    (hsymm : ∀ a b, M.near a b = M.near b a)
+    {close : Fin M.ngeom → Fin M.ngeom → Prop} (hcsymm : ∀ a b, close a b → close b a)
+    (hbroad : BroadComplete M close boxes)
+    (hok : collide M boxes = .ok items) (g1 g2 : Fin M.ngeom) (hD : Spec.Collide.Dynamic M g1 g2) (hcl : close g1 g2) :
+    ∃ c ∈ flat items, c.ipair = none ∧ ((c.g1 = g1 ∧ c.g2 = g2) ∨ (c.g1 = g2 ∧ c.g2 = g1)) := by
+  have he := hD.1
+  have hdis : ¬ ((M.dsblConstraint || M.dsblContact || decide (M.nbody < 2)) = true) := by
+    simp only [Bool.or_eq_true, decide_eq_true_eq, not_or, Bool.not_eq_true, Nat.not_lt]
+    exact ⟨⟨he.1, he.2⟩, h2⟩
+  unfold collide at hok
+  rw [if_neg hdis] at hok
+  split at hok
+  · cases hok
+  · rename_i bfs hbf
+    have hitems := (Except.ok.inj hok).symm
+    rw [hitems]
+    have hne : bodyOf M g1 ≠ bodyOf M g2 := by
+      intro h
+      apply hD.2.1
+      unfold bodyFiltered
+      simp only
+      rw [h]; exact Or.inl rfl
+    have hval : (bodyOf M g1).val ≠ (bodyOf M g2).val := fun h => hne (Fin.ext h)
+    by_cases hlt : (bodyOf M g1).val < (bodyOf M g2).val
+    · refine ⟨_, dynamic_complete M hw hg hbroad hbf hD hcl hlt, push_ipair M g1 g2 none, ?_⟩
+      exact push_geoms M g1 g2 none
+    · have hlt' : (bodyOf M g2).val < (bodyOf M g1).val := by omega
+      refine ⟨_, dynamic_complete M hw hg hbroad hbf (dynamic_symm M hsymm _ _ hD) (hcsymm _ _ hcl) hlt',
+        push_ipair M g2 g1 none, ?_⟩
+      rcases push_geoms M g2 g1 none with h | h
+      · exact Or.inr h
+      · exact Or.inl h
+
+end assembly
+
 end MjProof.Broadphase
